@@ -93,6 +93,22 @@ class C03(Property):
             return Result([], labels, False, outcome_label(r))
         if ferr is not None:
             return Result([specrun.fmt_violation(ferr)], labels, False, 'written')
+        viol = self.judge(spec, dec)
+        # second pass, same process: one channel is widened so that the frame's data records are exactly as long as the
+        # FILE-HEADER record (same type number 0, explicitly formatted) written before them
+        spec2 = self.coincide(spec, dec)
+        if spec2 is not None:
+            labels.append('row-record-as-long-as-the-file-header-record')
+            r2, dec2, ferr2 = specrun.write_and_decode(spec2, ctx)
+            if r2['outcome'] == 'written':
+                if ferr2 is not None:
+                    viol.append(Violation(f"size-coincidence/undecodable/{ferr2.kind}", f"{ferr2.detail} @ {ferr2.offset}"))
+                else:
+                    viol += [Violation('size-coincidence/' + v.sig, v.detail) for v in self.judge(spec2, dec2)]
+        return Result(viol, labels, nt, 'written', sample=spec_summary(spec))
+
+    @staticmethod
+    def judge(spec, dec):
         exp = Expectation(spec)
         viol = []
         for i, dlf in enumerate(dec.logical_files):
@@ -102,7 +118,47 @@ class C03(Property):
             probs, stats = compare.check_frames(dlf, exp, i, opmap)
             for k, w, d in probs:
                 viol.append(Violation(f"{k}/{w}", d))
-        return Result(viol, labels, nt, 'written', sample=spec_summary(spec))
+        return viol
+
+    @staticmethod
+    def coincide(spec, dec):
+        import copy
+        import numpy as np
+        if len(spec['lfs']) != 1 or not dec.logical_files:
+            return None
+        dlf = dec.logical_files[0]
+        heads = [len(rec.body) for rec in dlf.records if rec.is_eflr and rec.type == 0]
+        rows = [rec for rec in dlf.records if not rec.is_eflr and rec.type == 0]
+        ops = spec['lfs'][0]['ops']
+        frames = [op for op in ops if op['t'] == 'frame']
+        if not heads or not rows or not frames:
+            return None
+        delta = heads[0] - len(rows[0].body)         # the first data record belongs to the first frame written
+        # (frames are written in creation order; the reader keeps file order)
+        first = min((j for j, op in enumerate(ops) if op['t'] == 'frame'))
+        chans = [c['$ref'] for c in ops[first]['attrs']['channels']['v']]
+        if delta <= 0 or not chans:
+            return None
+        j = chans[-1]
+        if sum(1 for op in ops if op['t'] == 'frame' and any(c['$ref'] == j for c in op['attrs']['channels']['v'])) != 1:
+            return None
+        c = ops[j]
+        if c.get('data') is None or c.get('data_from') is not None or any(o.get('data_from') == j for o in ops):
+            return None
+        if c.get('cast'):
+            return None      # (new data under a declared cast could leave the domain of well-defined casts)
+        size = np.dtype(c['data']['dt']).itemsize
+        if delta % size or any(k in (c.get('attrs') or {}) for k in ('dimension', 'element_limit')):
+            return None
+        d = c['data']
+        width = (d['shape'][1] if len(d['shape']) > 1 else 1) + delta // size
+        s2 = copy.deepcopy(spec)
+        s2['write'] = {k: v for k, v in (s2.get('write') or {}).items() if k != 'prelude'}
+        nd = {'dt': d['dt'], 'shape': [d['shape'][0], width], 'pat': [5, 9]}
+        if d.get('layout'):
+            nd['layout'] = d['layout']
+        s2['lfs'][0]['ops'][j]['data'] = nd
+        return s2
 
 
 PROP = C03()
